@@ -338,7 +338,14 @@ def import_name(ctx):
         # name checks: in this fn or its closures, the None edge of `name` and the `name != import_name` true edge give Err
         bodies = [b] + [f.bodies[x] for x in nested]
         none_err = ne_err = False
+        behind = []
         for x in bodies:
+            for e in x.edges:
+                # a name check placed in the adder itself, after the `already loaded` early return, is skipped for a project reached a second time
+                if x is b and e.label and e.src in G and ((e.label[0] == "variant" and e.label[2] == ("None",) and origin_matches(edge_origin(x, e), lambda o: o[0] == "field" and "name" in o[1])) or
+                                                          (e.label[0] == "bool" and any(d[0] == "call" and ("::ne" in d[1] or d[1].endswith("::eq")) and any(atom_has_field(a, "name") for a in d[2]) for d in bool_atom_desc(x, e.label[2]) if e.label[2] is not None))):
+                    if any(bb in x.dominated_by_edge(e) for (bb, st) in x.aggregates("Result", "Err")):
+                        behind.append(e)
             for e in x.edges:
                 if e.label and e.label[0] == "variant" and e.label[2] == ("None",) and e.label[3] and ("name" in place_fields(e.label[3]) or origin_matches(edge_origin(x, e), lambda o: o[0] == "field" and "name" in o[1])):
                     blks = x.dominated_by_edge(e)
@@ -354,6 +361,8 @@ def import_name(ctx):
             for e in bool_edges(x, eq, False):
                 if any(bb in x.dominated_by_edge(e) for (bb, st) in x.aggregates("Result", "Err")):
                     ne_err = True
+        ctx.check(not behind, f"{short(b.name)}/checked-on-every-import-edge", [site(b, e.src) for e in behind[:2]] or [b.loc()],
+                  "the import-name checks sit behind the 'already loaded' early return: a project reached a second time (import cycle, diamond) under a wrong key is accepted, and the verdict depends on iteration order")
         ctx.check(none_err, f"{short(b.name)}/unnamed-import", [b.loc()], "an imported project without a name is accepted")
         ctx.check(ne_err, f"{short(b.name)}/import-key-matches-name", [b.loc()], "a project imported under a key different from its own name is accepted")
 
@@ -419,8 +428,8 @@ C14_SCOPE_NOTE = "loader, From<yaml::Config>, name listing, name parsing, resolv
 C14_PANIC_TABLE = [
     (r"is_valid_(target|project)_name::RE.*__static_ref_initialize$", "unwrap", r"Result::<regex::Regex", "constant regex literal"),
     (r"transform_input::\{c0\}::RE.*__static_ref_initialize$", "unwrap", r"Result::<regex::Regex", "constant regex literal"),
-    (r"transform_input::\{c0\}$", "unwrap", r"Option::<regex::Match", "group 1 exists whenever the constant regex matched"),
-    (r"transform_input::\{c0\}$", "unwrap", r"Result::<[\w:]*TargetId", "the regex guarantees at most one `::` in the captured name"),
+    (r"transform_input::\{c0\}$", "unwrap", r"Option::<regex::Match", "group 1 exists whenever the constant regex matched", "under-regex-captures"),
+    (r"transform_input::\{c0\}$", "unwrap", r"Result::<[\w:]*TargetId", "the regex guarantees at most one `::` in the captured name", "under-regex-captures"),
     (r"add_target$", "index", r"HashMap<[\w:]*TargetId, [\w:]*Target> as std::ops::Index", "the producer was resolved by the preceding loop over the dependencies (which include it)"),
     (r"add_target$", "unwrap", r"Result::<\(\), anyhow::Error>::unwrap", "extend_input only fails for aggregates, which have no `X.output` input"),
     (r"add_target::\{c0\}$", "unwrap", r"Option::<&std::string::String>::unwrap", "the project name is Some whenever the lookup under it fails (the unnamed root project is always present)"),
@@ -473,8 +482,17 @@ def no_panic_config(ctx):
         lab = short(x)
         why = None
         full = re.sub(r"\{closure#(\d+)\}", r"{c\1}", x)
-        for (frx, k, drx, reason) in C14_PANIC_TABLE:
+        for ent in C14_PANIC_TABLE:
+            (frx, k, drx, reason) = ent[:4]
             if k == kind and re.search(frx, full) and re.search(drx, detail):
+                if len(ent) > 4 and ent[4] == "under-regex-captures":
+                    # the justification only holds where the constant regex matched: the site must be dominated by the Some edge of Regex::captures
+                    G = set()
+                    for e in b.edges:
+                        if e.label and e.label[0] == "variant" and e.label[2] == ("Some",) and origin_matches(edge_origin(b, e), lambda o: o[0] == "call" and o[1].endswith("Regex::captures")):
+                            G |= b.dominated_by_edge(e)
+                    if bb not in G:
+                        continue
                 why = reason
                 break
         if why:
@@ -607,3 +625,59 @@ def names_offered(ctx):
             cb = f.bodies[c]
             cat = cb.prov.atoms(0)
             ctx.check(atom_has_field(cat, "projects"), f"{short(c)}/all-projects", [cb.loc()], "the list of all targets does not range over all loaded projects")
+
+
+def regex_literals(f, body_name_rx):
+    """string literals handed to Regex::new inside lazy_static initialisers whose path matches body_name_rx"""
+    out = []
+    for n, b in f.bodies.items():
+        if not re.search(body_name_rx, n):
+            continue
+        for bb, t in b.calls():
+            if t["callee"]["base"].endswith("Regex::new") and t["args"]:
+                for v in atom_consts(b.prov.operand_atoms(t["args"][0], interproc=False)):
+                    if v.startswith('"'):
+                        out.append((b, bb, v))
+    return out
+
+
+def _py_regex(lit):
+    """the Rust regex literal as a Python pattern (the subset used here is common to both engines)"""
+    v = lit
+    if v.startswith('"') and v.endswith('"'):
+        v = v[1:-1]
+    v = v.replace("\\\\", "\\").replace('\\"', '"')
+    if v.endswith("$") and not v.endswith("\\$"):
+        v = v[:-1] + "\\Z"  # Rust's `$` (no multi-line flag) only matches at the very end; Python's also before a final newline
+    return v
+
+
+@rule("C14.NAME-REGEX", ["C14", "C19"], """the constant regexes that define valid names accept plain names and reject empty names, names starting with `-`, and names containing `:`, `.`, `/` or
+      blanks; the `X.output` regex captures at most one `::`-qualified name (evaluated on the literals, as constants of the source)""", "K2", floor=3)
+def name_regex(ctx):
+    f = ctx.f
+    import re as _re
+    vals = regex_literals(f, r"is_valid_\w+_name::RE.*__static_ref_initialize$")
+    ctx.need(len(vals) >= 2, f"name-validation regex literals (found {len(vals)})")
+    for (b, bb, lit) in vals:
+        try:
+            rx = _re.compile(_py_regex(lit))
+        except _re.error as e:
+            ctx.bad(f"{short(b.name)}/compiles", [site(b, bb)], f"the literal {lit} could not be interpreted: {e}")
+            continue
+        good = ["a", "my-target", "007", "_hidden", "a_b-c"]
+        bad = ["", "-", "-a", "a::b", "a:b", "a.b", "a b", "a/b", "a.output", " a", "a\n"]
+        wrong = [x for x in good if not rx.search(x)] + [x for x in bad if rx.search(x)]
+        ctx.check(not wrong, f"{short(f.bodies[b.name].name.split('::RE')[0])}/accepts-exactly-names", [site(b, bb)], f"the name regex {lit} misclassifies {wrong}: names containing `::`/`.` would make target references ambiguous (and the justified unwraps unjustified)")
+    outs = regex_literals(f, r"transform_input.*RE.*__static_ref_initialize$")
+    ctx.need(outs, "`X.output` regex literal")
+    for (b, bb, lit) in outs:
+        try:
+            rx = _re.compile(_py_regex(lit))
+        except _re.error as e:
+            ctx.bad(f"{short(b.name)}/compiles", [site(b, bb)], f"the literal {lit} could not be interpreted: {e}")
+            continue
+        cases = {"a.output": "a", "p::t.output": "p::t", "my-t_1.output": "my-t_1"}
+        rejects = ["a::b::c.output", ".output", "a.b.output", "a.outputs", "a::.output", "::a.output", "a output", "a.output "]
+        wrong = [k for k, v in cases.items() if not rx.search(k) or rx.search(k).group(1) != v] + [x for x in rejects if rx.search(x)]
+        ctx.check(not wrong, "output-reference/captures-one-qualified-name", [site(b, bb)], f"the `X.output` regex {lit} misclassifies {wrong}")
